@@ -141,6 +141,7 @@ theorem sim_step (fns : List FnDecl) (hs : sigsOk fns = true) (s : St) (w : Watc
   | resume t b => obtain ⟨w', h1, h2⟩ := sim_resume fns s w t b h; exact ⟨w', h1, Or.inr h2⟩
   | suspend t => obtain ⟨w', h1, h2⟩ := sim_suspend fns s w t h; exact ⟨w', h1, Or.inr h2⟩
   | complete t o => obtain ⟨w', h1, h2⟩ := sim_complete fns hs s w t o h; exact ⟨w', h1, Or.inr h2⟩
+  | threadEnd th => exact ⟨w, by simp [watchStep, h.live, observe, step], Or.inr (by simpa [observe, step] using h)⟩
 
 theorem watchRun_ok (fns : List FnDecl) (hs : sigsOk fns = true) (ops : List Op) (s : St) (w : Watch)
     (h : w.gaveUp = true ∨ Rel fns s w) :
